@@ -83,6 +83,27 @@ def gen(rng, tier):
                         hist=[["n"], ["heur", "100"], ["tp", ["0", "1", "2"]], ["n"], ["obj"], ["heur", "100"], ["n"]])
             yield case
             continue
+        if k % 20 == 18:
+            # systematic mutator histories of the sequence-based object: (a) the fleet size is set AGAIN to its current value after a
+            # heuristic added surcharged dummy vehicles and the objective was built (set_max_vehicles resets the surcharges);
+            # (b) the object is assembled through its own API, queried, and only then told which node is the depot (the node that is
+            # already first: the graph does not move, but the sequence class installs its depot self-loop)
+            if (k // 20) % 2 == 0:
+                case = FU.gen_raising_seq_case(rng)
+                case.pop("heur", None), case.pop("pre", None)
+                case["spec"]["nodes"][0]["hi"] = "inf"
+                case["V"] = rng.choice([0, 1])
+                case["hist"] = [["heur", rng.choice(["100", "1000"])], ["qubo_o"], ["obj"], ["setL", "same"], ["qubo_o"], ["obj"], ["setV", "same"],
+                                ["qubo_o"], ["obj"], ["n"], ["con"]]
+            else:
+                case = FU.gen_form_case(rng, tier, forms=("seq",), heur_p=0.0, nmax=4)
+                case["strict"] = (k // 40) % 3 == 2          # mostly non-strict (the strict set_depot re-adds every arc anyway)
+                case["via"], case["skip_set_depot"], case["arcs_before_depot"] = "wrapper", True, len(case["spec"]["arcs"])
+                dep = case["spec"]["nodes"][0]["name"]
+                case["hist"] = [[rng.choice(["n", "obj", "qubo_f", "idx"])], ["setdepot", dep]] + [[x] for x in QUERIES[:7]]
+            case["mutators"] = True
+            yield case
+            continue
         if k % 10 == 2:
             # mutator stream: the problem data are changed through the object's own API AFTER queries were answered (new time grid,
             # other fleet size / sequence length, another arc, another node); later answers must be those of the changed problem
@@ -170,9 +191,9 @@ def apply_mutator(o, op):
     if op[0] == "tp":
         o.add_time_points([VU.val(t) for t in op[1]])
     elif op[0] == "setV":
-        o.set_max_vehicles(int(op[1]))
+        o.set_max_vehicles(int(o.max_vehicles) if op[1] == "same" else int(op[1]))
     elif op[0] == "setL":
-        o.set_max_sequence_length(int(op[1]))
+        o.set_max_sequence_length(int(o.max_sequence_length) if op[1] == "same" else int(op[1]))
     elif op[0] == "addarc":
         o.add_arc(op[1], op[2], VU.val(op[3]), VU.val(op[4]))
     elif op[0] == "addnode":
@@ -349,12 +370,14 @@ def correspond_flags(res, drv, case):
                 o.add_time_points([VU.val(t) for t in op[1]])
                 out = ("mut", "done")
             elif kind == "setV":
-                ops.append(f"setV {int(op[1])}")
-                o.set_max_vehicles(int(op[1]))
+                v_ = int(o.max_vehicles) if op[1] == "same" else int(op[1])
+                ops.append(f"setV {v_}")
+                o.set_max_vehicles(v_)
                 out = ("mut", "done")
             elif kind == "setL":
-                ops.append(f"setL {int(op[1])}")
-                o.set_max_sequence_length(int(op[1]))
+                l_ = int(o.max_sequence_length) if op[1] == "same" else int(op[1])
+                ops.append(f"setL {l_}")
+                o.set_max_sequence_length(l_)
                 out = ("mut", "done")
             elif kind == "addarc":
                 ops.append(f"addarc {op[1]} {op[2]} {op[3]} {op[4]}")
